@@ -205,6 +205,13 @@ func (g *Gen) builtin(fn *ssa.Function, st *State, bi *ssa.Builtin, call *ssa.Ca
 		a := g.val(st, call.Args[0])
 		b := g.val(st, call.Args[1])
 		r := g.freshRef(st)
+		if stt, el, ok := structElem(call.Args[0].Type()); ok {
+			// slice of structs: copy every field array; the result starts at offset 0 of a fresh store
+			g.copyStructElems(st, el, stt, r, a, b)
+			nl := g.def("len", "Int", fmt.Sprintf("(+ %s %s)", a.Len, b.Len))
+			g.setResult(result, Val{Ref: r, Off: "0", Len: nl, Kind: "slice", Ty: call.Args[0].Type()})
+			return
+		}
 		var k int
 		if _, err := fmt.Sscan(b.Len, &k); err != nil || k > 32 {
 			na := g.seqJoin(st, "appended", g.arr(st, a), a.Off, a.Len, g.arr(st, b), b.Off, b.Len, "0")
@@ -577,6 +584,7 @@ func (g *Gen) callCommon(fn *ssa.Function, st *State, call *ssa.CallCommon, resu
 		for _, e := range cc.Ensures {
 			g.assume(st, g.spec(st, e.Expr, env))
 		}
+		g.freshAssume(st, cc, env)
 		g.swapEntryBack(saveEntry)
 	}
 	if cc == nil {
